@@ -36,6 +36,8 @@ seq_len = z3.Function("seq_len", Val, IntS)         # len() of an opaque sequenc
 seq_at = z3.Function("seq_at", Val, IntS, Val)      # element of an opaque sequence value
 
 
+cls_val = z3.Function("class_as_value", Cls, Val)      # a class object used as a plain value
+
 _ATTR_UF: dict = {}
 
 
